@@ -3,7 +3,7 @@
 //! the recorded pixel maps of draw() on both targets and of pixels().
 use egmon::{
     jobj, main_with,
-    target::{unbounded_box, Col, IterTarget, NativeTarget, PixMap},
+    target::{rect, unbounded_box, Col, IterTarget, NativeTarget, PixMap},
     zoo::StyleD,
     Ctx, Rng, Run,
 };
@@ -156,6 +156,48 @@ fn check<S: Shape>(ctx: &mut Ctx, shape: S, st: StyleD) {
             });
         }
     }
+    // the same on bounded targets whose edges coincide with / cut through the painted region: inside
+    // the target exactly the points of the areas are painted (a drawable may cull against the
+    // target's box, but must not lose a point that lies inside it)
+    if !want.is_empty() {
+        let (mut x0, mut y0, mut x1, mut y1) = (i32::MAX, i32::MAX, i32::MIN, i32::MIN);
+        for &(x, y) in want.px.keys() {
+            x0 = x0.min(x);
+            y0 = y0.min(y);
+            x1 = x1.max(x);
+            y1 = y1.max(y);
+        }
+        let (w, h) = ((x1 - x0 + 1) as u32, (y1 - y0 + 1) as u32);
+        let k = (want.hash() % 3) as i32 + 1;
+        let boxes = [
+            rect(x0, y0, w, h),                                  // tight: every edge of the target is a painted edge
+            rect(x0 - k, y0 - k, w, h),                          // cuts k columns/rows at the right/bottom
+            rect(x0 + k, y0 + k, w, h),                          // cuts at the left/top
+            rect(x0 - 2, y0 + (h as i32) / 2, w + 4, h),         // upper half cut away
+        ];
+        let bx = boxes[(want.hash() / 3 % 4) as usize];
+        let mut want_in = PixMap::new();
+        for (&(x, y), &c) in &want.px {
+            if x >= bx.top_left.x && y >= bx.top_left.y && x < bx.top_left.x + bx.size.width as i32 && y < bx.top_left.y + bx.size.height as i32 {
+                want_in.set(x, y, c);
+            }
+        }
+        let mut a = IterTarget::<C>::new(bx);
+        let mut b = NativeTarget::<C>::new(bx);
+        a.log.budget = budget as u64;
+        b.log.budget = budget as u64;
+        let _ = S::render(&styled, &mut a);
+        let _ = S::render(&styled, &mut b);
+        ctx.count("bounded_target_draws", 2);
+        for (path, map) in [("draw()/draw_iter-only", &a.log.map), ("draw()/native", &b.log.map)] {
+            if !map.same(&want_in) {
+                ctx.violation(format!("{}|draw-on-bounded-target|differs-from-areas-inside-the-target", kind), || format!("{} on target box {:?}", case(), egmon::target::rt(&bx)), || {
+                    format!("{}: first difference {:?} (x, y, painted, expected)\npainted:\n{}expected:\n{}", path, map.first_diff(&want_in), map.ascii(36), want_in.ascii(36))
+                });
+                break;
+            }
+        }
+    }
     // geometry of the areas for non-degenerate shapes
     if !shape.degenerate() {
         let (ins, outs) = in_out(&st);
@@ -213,7 +255,7 @@ fn main() {
     main_with("c06", "exploration", |run: &Run| {
         run.set_rule(
             "Rectangle, Circle, Ellipse, RoundedRectangle x all sizes 0..=N (w and h independently) x stroke widths 0..=W (also wider than the shape, so that the fill area collapses) x 3 alignments x {none, fill, stroke, both in different colours, both in the same colour}; \
-             rounded rectangles with equal radii (exhaustive small) and random unequal/oversized radii. Each case compares draw() on two targets and pixels() with the map predicted from fill_area()/stroke_area().contains(). \
+             rounded rectangles with equal radii (exhaustive small) and random unequal/oversized radii. Each case compares draw() on two unbounded targets, pixels(), and draw() on two bounded targets (edges coinciding with or cutting through the painted region) with the map predicted from fill_area()/stroke_area().contains(). \
              Non-trivial = at least one point lies in an area and a colour is set; distinct = distinct (shape, style).",
         );
         run.assume("Solid stroke style only (the statement's domain)");
